@@ -225,7 +225,7 @@ def Sim.callDone (m : Sim) (cj : Nat × Nat) : Bool :=
 
 def Sim.record (m : Sim) : Sim :=
   { m with
-    closedAt := stamp m.t m.closedAt (m.st.conns.map fun cn => cn.closed || cn.discarded)
+    closedAt := stamp m.t m.closedAt (m.st.conns.map fun cn => cn.closed)
     doneAt := stamp m.t m.doneAt (m.callMap.map m.callDone)
     resolvedAt := match m.resolvedAt with
       | some r => some r
